@@ -29,8 +29,11 @@ func checkC10(p *Prog, r *Report) {
 	for _, f := range []string{F("SubscriptionManager.subscriptionEntries"), F("BindingManager.bindingEntries"), F("FeatureLocal.subscriptions"), F("FeatureLocal.bindings")} {
 		rebuildAtomic(p, ls, r, "R6", f, 2)
 	}
+	r.Rule("R8", "every hand-written element-wise comparison of two slices of one type compares their lengths for equality: entity addresses are never matched by prefix (shared lint, C20-R6)")
+	sliceEqualityHelpers(p, r, "R8")
 	r.Rule("R7", "entity removal cascade (C06-R1/R2): the entity removed is the one announced as removed, and the subscription, binding and client-cache clean-ups are applied to that entity's own address, only if it was found")
 	entityRemovalCascade(p, r, "R7", "R7")
+	approvalCleanupRule(p, r, "R9")
 	r.Rule("R2", "a function that drops all pending approvals of a peer stops their timers first, in the same critical section")
 	nDrop := 0
 	for _, fn := range ls.fns {
@@ -353,4 +356,69 @@ func reachesAvoiding(a, b, avoid *ssa.BasicBlock) bool {
 		}
 	}
 	return false
+}
+
+// approvalCleanupRule: the per-peer clean-up of the write-approval state removes
+// the peer's whole entry from the pending map and from the tally, on every path.
+func approvalCleanupRule(p *Prog, r *Report, rule string) {
+	r.Rule(rule, "the per-peer clean-up of the write-approval state deletes the peer's entry (keyed by its SKI argument) from the pending-approval map and from the tally, on every path to the return: a write of a peer that is gone can no longer be approved")
+	fli := p.LookupIface("api", "FeatureLocalInterface")
+	if fli == nil {
+		r.Undecided(rule, "anchor:api.FeatureLocalInterface", "", "interface not found")
+		return
+	}
+	n := 0
+	seen := map[*ssa.Function]bool{}
+	for _, fn := range p.ImplsOf(fli, "CleanWriteApprovalCaches") {
+		// promotion wrappers delegate to the one implementation
+		impl := fn
+		if isWrapper(fn) {
+			forEachCall(fn, func(site ssa.CallInstruction) {
+				if c := site.Common().StaticCallee(); c != nil && c.Name() == fn.Name() {
+					impl = c
+				}
+			})
+		}
+		if seen[impl] || len(impl.Params) < 2 {
+			continue
+		}
+		seen[impl] = true
+		n++
+		for _, role := range []string{"FeatureLocal.pendingWriteApprovals", "FeatureLocal.writeApprovalReceived"} {
+			fname := FN(role)
+			var del *ssa.Call
+			forEachCall(impl, func(site ssa.CallInstruction) {
+				c, ok := site.(*ssa.Call)
+				if !ok || builtinName(&c.Call) != "delete" {
+					return
+				}
+				if Path(c.Call.Args[0]) == "recv."+fname && c.Call.Args[1] == ssa.Value(impl.Params[1]) {
+					del = c
+				}
+			})
+			key := fmt.Sprintf("%s|%s", FnName(impl), role)
+			if del == nil {
+				r.Fail(rule, key, p.Pos(impl.Pos()), "no deletion of the peer's entry from "+role)
+				continue
+			}
+			// on every path: the deletion's block post-dominates the entry, i.e. no return is reachable without passing it
+			bypass := false
+			var dfs func(b *ssa.BasicBlock, seenB map[*ssa.BasicBlock]bool)
+			dfs = func(b *ssa.BasicBlock, seenB map[*ssa.BasicBlock]bool) {
+				if b == del.Block() || seenB[b] {
+					return
+				}
+				seenB[b] = true
+				if _, isRet := b.Instrs[len(b.Instrs)-1].(*ssa.Return); isRet {
+					bypass = true
+				}
+				for _, s := range b.Succs {
+					dfs(s, seenB)
+				}
+			}
+			dfs(impl.Blocks[0], map[*ssa.BasicBlock]bool{})
+			r.Check(rule, key, !bypass, p.InstrPos(del), fmt.Sprintf("the peer's entry is deleted from %s; a return is reachable without the deletion: %v", role, bypass))
+		}
+	}
+	r.Floor(rule, "implementations of the per-peer clean-up", n, 1)
 }
